@@ -143,6 +143,8 @@ func main() {
 		cmdSelftest(os.Args[2:])
 	case "reexec":
 		cmdReexec(os.Args[2:])
+	case "seq":
+		cmdSeq(os.Args[2:])
 	default:
 		fmt.Fprintln(os.Stderr, "unknown command", os.Args[1])
 		os.Exit(2)
@@ -263,5 +265,28 @@ func cmdSelftest(args []string) {
 	}
 	if bad > 0 {
 		os.Exit(2)
+	}
+}
+
+// cmdSeq runs several seeds one after the other in ONE process and prints each run's hashes:
+// compared with the same seeds run in fresh processes it exposes dependence on process history
+// (package-level state in the code under test or in the harness).
+func cmdSeq(args []string) {
+	fs := flag.NewFlagSet("seq", flag.ExitOnError)
+	profile := fs.String("profile", "C19", "")
+	tier := fs.String("tier", "quick", "")
+	seeds := fs.String("seeds", "", "comma separated")
+	_ = fs.Parse(args)
+	for _, x := range strings.Split(*seeds, ",") {
+		seed, err := strconv.ParseUint(strings.TrimSpace(x), 10, 64)
+		if err != nil {
+			continue
+		}
+		res, _ := runOne(seed, *profile, *tier, false, false)
+		var vs []string
+		for _, v := range res.Violations {
+			vs = append(vs, v.Class())
+		}
+		fmt.Printf("seed=%d blocks=%d trace=%s log=%s violations=%v harness=%q\n", res.Seed, res.Blocks, res.TraceHash, res.LogHash, vs, truncate(res.HarnessErr, 100))
 	}
 }
